@@ -144,7 +144,7 @@ PROPS = {
         bounds='every REACH-shaped state with chain <= 7 (8), every request; all non-mutating outcomes',
     ),
     'C19': dict(
-        S=dict(quick=['s_codec_enc'], thorough=['s_codec_enc', 's_codec_dec', 's_upgrade_plain']),
+        S=dict(quick=['s_codec_enc'], thorough=['s_codec_enc', 's_codec_dec', 's_upgrade_plain', 's_upgrade_snap']),
         bounds='id text codec for all 2^128 ids; content written by the pinned glue (2 clients, <= 3 versions) read by the current glue',
     ),
 }
